@@ -79,6 +79,7 @@ impl<'a> Shrinker<'a> {
                 let simplifications: Vec<Box<dyn Fn(&mut Inv)>> = vec![
                     Box::new(|i: &mut Inv| i.verbosity = 0),
                     Box::new(|i: &mut Inv| i.debug = 0),
+                    Box::new(|i: &mut Inv| i.dashdash = false),
                     Box::new(|i: &mut Inv| i.readdir = "sorted".into()),
                     Box::new(|i: &mut Inv| i.style.column = None),
                     Box::new(|i: &mut Inv| i.style.tab = None),
